@@ -139,7 +139,16 @@ def run_specs(pid, tier, seed, factor, judge):
     rnd = random.Random(seed * 1000003 + int(pid[1:]))
     n = common.scale(tier, 320, 4000) * factor
     N = common.scale(tier, 6, 8)
-    outs = specrun.pool_map(worker, [(c, N) for c in make_configs(rnd, n)])
+    cfgs = make_configs(rnd, n)
+    if pid == "C02":
+        # productivity of what is returned depends on cycles of one-way rules being merged: more universes in which a cycle of
+        # one-way rules is closed by a later equivalence, searched with frequent specification queries
+        for _ in range(common.scale(tier, 48, 400) * factor):
+            c = specrun.rand_config(rnd, "rot")
+            c.update(rot="split", alpha="abc", db=rnd.choice(["RuleDB", "RuleDB", "RuleDBForgetStrategy"]), perc=rnd.choice([100, 100, 50]),
+                     iterative=False, smallest=False)
+            cfgs.append(c)
+    outs = specrun.pool_map(worker, [(c, N) for c in cfgs])
     specrun.quiet()
     # a specification whose counting fails (status evalexc / evaltimeout) still has a skeleton: it is judged as well
     lines = [o["line"] for o in outs if "line" in o and "genuine" in o]
